@@ -181,6 +181,28 @@ def gen_byref(rng, tier):
         yield Case("byref", [0, rng.randint(0, 2), "s0", rs], True, "byref-trailing-gaps")
 
 
+    # references assembled from units: a plain codon, a codon split by 1..5 gaps after its first or second base, an
+    # all-gap run of 1..7 columns - every unit followed by every other (a split codon right before an all-gap triplet, two
+    # split codons in a row, gap runs of length 3k+1 / 3k+2 between codons)
+    for _ in range(N // 2):
+        units = []
+        for _ in range(rng.randint(2, 6)):
+            k = rng.random()
+            cod = "".join(rng.choice("ACGT") for _ in range(3))
+            if k < 0.3:
+                units.append(cod)
+            elif k < 0.65:
+                cut = rng.choice([1, 2])
+                units.append(cod[:cut] + "-" * rng.randint(1, 5) + cod[cut:])
+            else:
+                units.append("-" * rng.choice([1, 2, 3, 3, 3, 4, 6, 7]))
+        refrow = "".join(units)
+        L = len(refrow)
+        others = ["".join(rng.choice("ACGTacgtN-") for _ in range(L)) for _ in range(rng.randint(1, 3))]
+        rs = ",".join("s%d:%s" % (i, r) for i, r in enumerate([refrow] + others))
+        yield Case("byref", [rng.choice([0, 0, 0, 1, 2]), rng.randint(0, 2), "s0", rs], True, "byref-split-codons")
+
+
 def _rows(s):
     return [] if s == "_" else [tuple(r.split(":", 1)) for r in s.split(",")]
 
